@@ -173,7 +173,12 @@ impl Report {
         let mut unknown = 0u64;
         let mut known_hits: Vec<Value> = Vec::new();
         let mut lines: Vec<String> = Vec::new();
-        let replay_dir = cfg.root.join("replays").join(&self.id);
+        // VERIF_REPLAY_DIR: used when a seeded change is being evaluated, so that witnesses of a
+        // deliberately broken tree do not land among the committed ones
+        let replay_dir = match std::env::var("VERIF_REPLAY_DIR") {
+            Ok(d) if !d.trim().is_empty() => PathBuf::from(d.trim()).join(&self.id),
+            _ => cfg.root.join("replays").join(&self.id),
+        };
         for v in &self.violations {
             let k = known
                 .iter()
